@@ -280,6 +280,121 @@ def gen_pairs(rng, n_prog, n_indep):
   return pairs, stats
 
 
+def _entry_job(job):
+  """One (program, stub, expected merge_sources output) through every file-based entry point of merge-pyi, in a
+  scratch directory.  -> list of mismatch strings."""
+  import contextlib  # pylint: disable=g-import-not-at-top
+  import io as _io  # pylint: disable=g-import-not-at-top
+  import shutil  # pylint: disable=g-import-not-at-top
+  from pytype.tools.merge_pyi import main as mp_main  # pylint: disable=g-import-not-at-top
+  from pytype.tools.merge_pyi import merge_pyi  # pylint: disable=g-import-not-at-top
+  idx, py, pyi, want = job
+  base = os.path.join(common.BUILD, "c20", "entry-%d-%d" % (os.getpid(), idx))
+  shutil.rmtree(base, ignore_errors=True)
+  os.makedirs(os.path.join(base, "stubs"))
+  pp, sp = os.path.join(base, "mod.py"), os.path.join(base, "stubs", "mod.pyi")
+  bad = []
+  changed_want = want != py
+
+  def reset():
+    for f in os.listdir(base):
+      if f != "stubs":
+        os.unlink(os.path.join(base, f))
+    with open(pp, "w") as f:
+      f.write(py)
+    with open(sp, "w") as f:
+      f.write(pyi)
+
+  def run(label, fn):
+    reset()
+    buf = _io.StringIO()
+    try:
+      with contextlib.redirect_stdout(buf):
+        ret = fn()
+    except BaseException as e:  # pylint: disable=broad-except
+      bad.append("%s raised %s: %s" % (label, type(e).__name__, str(e)[:200]))
+      return None, "", {}
+    files = {f: open(os.path.join(base, f)).read() for f in sorted(os.listdir(base)) if f != "stubs"}
+    return ret, buf.getvalue(), files
+
+  def expect(label, ret, files, want_files, want_ret=None):
+    if files != want_files:
+      for k in sorted(set(files) | set(want_files)):
+        if files.get(k) != want_files.get(k):
+          bad.append("%s: file %s is %r, merge_sources on the same pair gives %r" % (
+              label, k, (files.get(k) or "<absent>")[:400], (want_files.get(k) or "<absent>")[:400]))
+    if want_ret is not None and ret is not None and bool(ret) != want_ret:
+      bad.append("%s: returned changed=%r, expected %r" % (label, ret, want_ret))
+
+  M = merge_pyi.Mode
+  merged = {"mod.py": want}
+  same = {"mod.py": py}
+  with_bak = dict(merged, **({"mod.py.orig": py} if changed_want else {}))
+  ret, out, files = run("merge_files PRINT", lambda: merge_pyi.merge_files(py_path=pp, pyi_path=sp, mode=M.PRINT))
+  expect("merge_files PRINT", ret, files, same, changed_want)
+  if out != want + "\n":
+    bad.append("merge_files PRINT printed %r, merge_sources gives %r" % (out[:400], want[:400]))
+  ret, out, files = run("merge_files DIFF", lambda: merge_pyi.merge_files(py_path=pp, pyi_path=sp, mode=M.DIFF))
+  expect("merge_files DIFF", ret, files, same, changed_want)
+  ret, out, files = run("merge_files OVERWRITE",
+                        lambda: merge_pyi.merge_files(py_path=pp, pyi_path=sp, mode=M.OVERWRITE))
+  expect("merge_files OVERWRITE", ret, files, merged, changed_want)
+  ret, out, files = run("merge_files OVERWRITE backup",
+                        lambda: merge_pyi.merge_files(py_path=pp, pyi_path=sp, mode=M.OVERWRITE, backup="orig"))
+  expect("merge_files OVERWRITE backup=orig", ret, files, with_bak, changed_want)
+  ret, out, files = run("merge_files_src OVERWRITE backup",
+                        lambda: merge_pyi.merge_files_src(pp, pyi, M.OVERWRITE, "orig"))
+  expect("merge_files_src OVERWRITE backup=orig", ret, files, with_bak, changed_want)
+  ret, out, files = run("main (print)", lambda: mp_main.main(["merge-pyi", pp, sp]))
+  expect("merge-pyi file.py file.pyi", None, files, same)
+  if out != want + "\n":
+    bad.append("merge-pyi file.py file.pyi printed %r, merge_sources gives %r" % (out[:400], want[:400]))
+  ret, out, files = run("main --diff", lambda: mp_main.main(["merge-pyi", "--diff", pp, sp]))
+  expect("merge-pyi --diff", None, files, same)
+  ret, out, files = run("main -i", lambda: mp_main.main(["merge-pyi", "-i", pp, sp]))
+  expect("merge-pyi -i", None, files, merged)
+  ret, out, files = run("main -i -b orig", lambda: mp_main.main(["merge-pyi", "-i", "-b", "orig", pp, sp]))
+  expect("merge-pyi -i -b orig", None, files, with_bak)
+  ret, out, files = run("merge_tree", lambda: merge_pyi.merge_tree(py_path=base, pyi_path=os.path.join(base, "stubs")))
+  expect("merge_tree", None, files, merged)
+  if ret is not None and (ret[1] or (ret[0] == [pp]) != changed_want):
+    bad.append("merge_tree returned %r (changed expected: %r)" % (ret, changed_want))
+  ret, out, files = run("merge_tree backup",
+                        lambda: merge_pyi.merge_tree(py_path=base, pyi_path=os.path.join(base, "stubs"), backup="orig"))
+  expect("merge_tree backup=orig", None, files, with_bak)
+  shutil.rmtree(base, ignore_errors=True)
+  return bad
+
+
+def correspond_entry(res, modelled, reals, tier):
+  """K2: the file-based entry points (merge_files in its three modes with and without a backup extension,
+  merge_files_src, merge_tree, the merge-pyi command line) write / print exactly what merge_sources returns for the
+  same pair — the output the model and the oracle have just been compared with — and leave everything else alone."""
+  jobs = []
+  changed = with_existing = 0
+  limit = 60 if tier == "quick" else 400
+  for (kind, py, pyi), (out, err) in zip(modelled, reals):
+    if err is not None or out is None:
+      continue
+    existing = G.has_annotations(py) if hasattr(G, "has_annotations") else (": " in py or "->" in py)
+    if kind in ("hand", "witness") or len(jobs) < limit or (existing and with_existing < limit):
+      jobs.append((len(jobs), py, pyi, out))
+      changed += out != py
+      with_existing += bool(existing)
+  n = max(1, min(8, (os.cpu_count() or 2) // 2))
+  with multiprocessing.Pool(n, initializer=_init_worker) as pool:
+    outs = pool.map(_entry_job, jobs, chunksize=4)
+  dis = []
+  for (_, py, pyi, want), bad in zip(jobs, outs):
+    if bad:
+      dis.append({"py": py, "pyi": pyi, "what": "file-based entry point differs from merge_sources: " + bad[0],
+                  "all": bad[:6], "kind": "entry"})
+  res.cov.setdefault("distribution", {})
+  res.cov["entry_points"] = {"pairs": len(jobs), "pairs_changed_by_the_merge": changed,
+                             "pairs_with_existing_annotations": with_existing, "entry_point_runs": 11 * len(jobs)}
+  return dis
+
+
 def correspond(res, rng, tier):
   common.load_pytype()
   drv = common.ensure_driver("drv_c20")
@@ -336,6 +451,7 @@ def correspond(res, rng, tier):
       "bases, MergeError) and the property's oracle is evaluated on it wherever the theorems' guards hold; "
       "non-trivial = the merge changed the program; distinct = distinct (program, stub) texts" % (
           len(HAND_CASES), n_prog, n_indep))
+  disagreements += correspond_entry(res, modelled, reals, tier)
   stats.update(hist)
   stats["annotation_tokens_inserted"] = ins_total
   stats["K_wall_s"] = round(time.time() - t0, 1)
